@@ -1336,3 +1336,18 @@ Proof.
 Qed.
 
 End Instance.
+
+(* the constructor is a history of insertions, so everything proved about histories holds for
+   hashes built by (hash k v ..) / {k:v ..} and then changed further *)
+Definition sets_of (pairs : list (key * Z)) : list zop := map (fun kv => OSet (fst kv) (snd kv)) pairs.
+
+Lemma fold_sets : forall (ah : key -> Z) pairs t,
+  fold_left (fun t kv => hash_set key Z ceq (khash ah) unwrap t (fst kv) (snd kv)) pairs t =
+  fold_left (zstep ah) (sets_of pairs) t.
+Proof. intros ah. induction pairs as [|[k v] r IH]; simpl; intros t; [reflexivity|]. apply IH. Qed.
+
+Theorem make_hash_is_history : forall ah pairs ops,
+  fold_left (zstep ah) ops (zmake ah pairs) = zrun ah (sets_of pairs ++ ops).
+Proof.
+  intros ah pairs ops. unfold zmake, make_hash, zrun, run. rewrite fold_left_app. f_equal. apply fold_sets.
+Qed.
